@@ -241,15 +241,36 @@ impl Session {
 /// Sessions inside the RFC's input domain: non-empty psk and psk_id (used only in PSK modes)
 pub fn session_with(suite: BoxedStrategy<Suite>) -> BoxedStrategy<Session> {
     (suite, mode(), ikm(), ikm(), bytes_range(1, 300), bytes_range(1, 300), bytes(1100), stream())
-        .prop_map(|(suite, mode, ikm_r, ikm_s, psk, psk_id, info, stream)| Session {
-            suite,
-            mode,
-            ikm_r,
-            ikm_s,
-            psk,
-            psk_id,
-            info,
-            stream,
+        .prop_map(|(suite, mode, ikm_r, ikm_s, psk, psk_id, info, stream)| {
+            let mut s = Session { suite, mode, ikm_r, ikm_s, psk, psk_id, info, stream };
+            // relations between inputs that independent generation never produces (about 12% of the
+            // sessions; the selector is taken from the stream so that no extra value has to shrink)
+            match s.stream[158] % 64 {
+                0 => s.psk_id = s.psk.clone(),
+                1 => s.info = s.psk_id.clone(),
+                2 => s.info = s.psk.clone(),
+                3 => s.ikm_s = s.ikm_r.clone(), // the sender's identity key pair is the recipient's
+                4 => {
+                    // psk_id is psk with one more byte / one byte fewer
+                    let mut v = s.psk.0.clone();
+                    v.push(0);
+                    s.psk_id = Bytes(v);
+                }
+                5 => {
+                    let mut v = s.psk_id.0.clone();
+                    v.reverse();
+                    s.psk = Bytes(v);
+                }
+                6 => s.info = Bytes(s.ikm_r.0.clone()),
+                7 => {
+                    // info is the concatenation psk_id || psk (boundary ambiguity with the key schedule inputs)
+                    let mut v = s.psk_id.0.clone();
+                    v.extend_from_slice(&s.psk);
+                    s.info = Bytes(v);
+                }
+                _ => {}
+            }
+            s
         })
         .boxed()
 }
@@ -296,7 +317,13 @@ pub struct Msg {
 }
 
 pub fn msg(max_pt: usize) -> BoxedStrategy<Msg> {
-    (bytes(max_pt), bytes(300)).prop_map(|(pt, aad)| Msg { pt, aad }).boxed()
+    (bytes(max_pt), prop_oneof![12 => bytes(300), 2 => bytes(1100), 1 => bytes(5000)], 0u8..40)
+        .prop_map(|(pt, aad, rel)| match rel {
+            0 => Msg { aad: pt.clone(), pt },          // aad equals the plaintext
+            1 => Msg { pt: aad.clone(), aad },          // plaintext equals the aad
+            _ => Msg { pt, aad },
+        })
+        .boxed()
 }
 
 pub fn fixed_msgs(salt: u64) -> Vec<Msg> {
